@@ -40,6 +40,9 @@ func runC01(c *Ctx) {
 	// the answers hold for every query, not only the first: rank lookups and quantile queries leave no observable write
 	if pr := c.paginated(); pr.err == "" {
 		c.shared(func() { c14Purity(c, a, pr) }, keyMentions("KeyAtRank", "GetValueAtQuantile", "GetValuesAtQuantiles"))
+		if pr.sortFlag != "" {
+			c.shared(func() { c14SortFlag(c, pr) }, func(o *Obligation) bool { return true })
+		}
 	}
 }
 
@@ -396,12 +399,23 @@ func c01KeyAtRank(c *Ctx, a *sketchAnchors, rule string) {
 			}
 		}
 		c.R.check(okLess, rule, funcName(f)+"/ascending", funcName(f), c.fpos(f), "bins are visited in ascending index order (less(i,j) = bins[i].index < bins[j].index)", found)
-		ps, _ := exec(c, f, nil, 1)
+		ps, _ := exec(c, f, nil, 2)
 		okFall := false
 		for _, p := range ps {
 			r := p.RetT[0]
 			if r.Op == "extract" && r.Sym == "0" && isMethodCall(r.Args[0], "MaxIndex") && errState(p, mk("extract", "1", nil, r.Args[0])) != 1 {
 				okFall = true
+			}
+			// or the index of the LAST of the ascending ordered bins: orderedBins[len(orderedBins)−1].index
+			if r.Op == "field" && r.Sym == "index" && r.Args[0].Op == "index" {
+				arr, idx := r.Args[0].Args[0], linearOf(r.Args[0].Args[1])
+				if idx.Const == -1 && len(idx.Coef) == 1 {
+					for _, at := range idx.Atoms {
+						if at.Op == "builtin" && at.Sym == "len" && at.Args[0].Key() == arr.Key() && ob != nil && arr.Op == "call" && arr.Sym == funcName(ob) {
+							okFall = true
+						}
+					}
+				}
 			}
 		}
 		c.R.check(okFall, rule, funcName(f)+"/fallback-max", funcName(f), c.fpos(f), "when no bin qualifies the maximum index is returned", "")
